@@ -254,7 +254,8 @@ func ops(v variant) []op {
 		k := k
 		for _, actor := range actors {
 			actor := actor
-			o = append(o, op{name: fmt.Sprintf("Update(%s,actor=%d)", k, actor), offered: func(w *world) bool { return hasCur(w) && capOK(w) },
+			// beyond the version cap only where the reference refuses (successors of a final state: no new states)
+			o = append(o, op{name: fmt.Sprintf("Update(%s,actor=%d)", k, actor), offered: func(w *world) bool { return hasCur(w) && (capOK(w) || w.rCurFin) },
 				arg: func(w *world) *channel.State { return w.cand(k) },
 				run: func(w *world, s *channel.State) error { return w.m.Update(s, channel.Index(actor)) },
 				ref: func(w *world, s *channel.State) bool {
@@ -266,7 +267,9 @@ func ops(v variant) []op {
 				}})
 		}
 		// CheckUpdate must never change anything; with a valid signature it accepts exactly the valid successors.
-		o = append(o, op{name: fmt.Sprintf("CheckUpdate(%s)", k), offered: func(w *world) bool { return hasCur(w) && capOK(w) },
+		// (offered beyond the version cap too: it changes nothing, and the successors of a final state in the
+		// phases after Final exist only there)
+		o = append(o, op{name: fmt.Sprintf("CheckUpdate(%s)", k), offered: func(w *world) bool { return hasCur(w) },
 			arg: func(w *world) *channel.State { return w.cand(k) },
 			run: func(w *world, s *channel.State) error {
 				before := w.snapshot()
